@@ -424,6 +424,74 @@ pub fn run(r: &mut Report, ctx: &Ctx) {
                 },
             );
         }
+        if ctx.want("body-triples") {
+            let words = len / 4; // 4-byte words (the finest lane of every kernel is 32 bits wide or wider)
+            r.section(
+                &format!("body-triples-{len}"),
+                "three cooperating bytes: every triple of byte positions inside each aligned 8-byte group (and across the two halves of each 16-byte group via one extra spread triple per group) x all (x,y) patterns from {00,ff,1b,e4,55}^6 on 2 backgrounds, every compiled backend; non-trivial = all",
+                &format!("C(8,3) triples x {} groups x 5^6 x 2 backgrounds x backends {:?}", (len + 7) / 8, backends),
+                true,
+                |s| {
+                    let _ = words;
+                    let bgs = &bgs;
+                    let backends = &backends;
+                    let alpha = [0x00u8, 0xff, 0x1b, 0xe4, 0x55];
+                    // all triples within each aligned 8-byte group
+                    let mut triples: Vec<[usize; 3]> = Vec::new();
+                    let groups = (len + 7) / 8;
+                    for g in 0..groups {
+                        let base = g * 8;
+                        let top = (base + 8).min(len);
+                        for a in base..top {
+                            for b in a + 1..top {
+                                for c in b + 1..top {
+                                    triples.push([a, b, c]);
+                                }
+                            }
+                        }
+                    }
+                    // spread triples: one byte in each of three different 4-byte lanes, stepping through the body
+                    for st in 0..len.saturating_sub(9) {
+                        triples.push([st, st + 5, (st + 9).min(len - 1)]);
+                        triples.push([st, (st + 17).min(len - 2), len - 1]);
+                    }
+                    triples.retain(|t| t[0] < t[1] && t[1] < t[2]);
+                    let triples = &triples;
+                    s.acc = par_for(triples.len() as u64 * 2, 2, |idx, acc| {
+                        let t = triples[(idx / 2) as usize];
+                        let bg = [0usize, 17][(idx % 2) as usize];
+                        let mut a = bgs[bg].0.clone();
+                        let mut b = bgs[bg].1.clone();
+                        for c in 0..15625usize {
+                            let mut k = c;
+                            for pos in t {
+                                a[pos] = alpha[k % 5];
+                                k /= 5;
+                                b[pos] = alpha[k % 5];
+                                k /= 5;
+                            }
+                            acc.evals += nb as u64;
+                            acc.transitions += nb as u64;
+                            acc.nontrivial += 1;
+                            match judge_body_backends(backends, &a, &b) {
+                                Ok(d) => {
+                                    if idx == 0 {
+                                        acc.outcomes.insert(d as u64);
+                                    }
+                                }
+                                Err(e) => {
+                                    acc.fail(idx * 15625 + c as u64, "body-triples", e, json!({"kind": "body", "a": hex(&a), "b": hex(&b)}));
+                                    return;
+                                }
+                            }
+                        }
+                        if idx % 97 == 0 {
+                            acc.sample(idx, || json!({"len": len, "positions": t, "alphabet": "00,ff,1b,e4,55", "background": bg}));
+                        }
+                    });
+                },
+            );
+        }
         if ctx.want("body-fill") {
             r.section(
                 &format!("body-fill-{len}"),
